@@ -642,6 +642,9 @@ func init() {
 	I["zzverif.LockOrderCycle"] = func(m *Machine, fn *ssa.Function, args []Value) Value {
 		return smt.BoolC(m.LockOrderCycle())
 	}
+	I["zzverif.Spawned"] = func(m *Machine, fn *ssa.Function, args []Value) Value {
+		return smt.BVC(64, uint64(m.spawned))
+	}
 	I["zzverif.LocksHeld"] = func(m *Machine, fn *ssa.Function, args []Value) Value {
 		return smt.BVC(64, uint64(len(m.heldOrder)))
 	}
